@@ -3,7 +3,7 @@
 followed by all 19 quick checks on each copy.  Every check must stay silent (rc 0) on every copy: a non-zero rc is a defect
 of the checks (brittleness against the spelling of the code), never of the code.
 
-    tools/mechanical.py [kind ...]        kinds: unparse locals invert splitand methods attrs flags whiletrue guard ternary augassign format percent continue elsereturn flipcmp   (default: all)
+    tools/mechanical.py [kind ...]        kinds: unparse locals invert splitand methods attrs flags whiletrue guard ternary augassign format percent continue elsereturn flipcmp hoist   (default: all)
 
 Not a registered check: it exercises the checks, it decides no property."""
 import ast, os, shutil, subprocess, sys, tempfile, builtins
@@ -235,6 +235,59 @@ class FlipCmp(ast.NodeTransformer):
         return n
 
 
+def hoist_attrs(trees):
+    """in every method: `self.<attr>` that is bound only in __init__ (never rebound anywhere in the program) and read at least
+    twice is read once into a local at the top of the method (an alias of the same object)"""
+    import copy
+    rebound = set()
+    for t in trees.values():
+        for c in ast.walk(t):
+            if isinstance(c, ast.ClassDef):
+                for m in c.body:
+                    if isinstance(m, ast.FunctionDef) and m.name != "__init__":
+                        for n in ast.walk(m):
+                            if isinstance(n, ast.Attribute) and isinstance(n.ctx, (ast.Store, ast.Del)):
+                                rebound.add(n.attr)
+        for n in ast.walk(t):
+            if isinstance(n, ast.Attribute) and isinstance(n.ctx, (ast.Store, ast.Del)) and not (isinstance(n.value, ast.Name) and n.value.id == "self"):
+                rebound.add(n.attr)
+    for t in trees.values():
+        for c in [c for c in ast.walk(t) if isinstance(c, ast.ClassDef)]:
+            inits = {n.attr for m in c.body if isinstance(m, ast.FunctionDef) and m.name == "__init__" for n in ast.walk(m)
+                     if isinstance(n, ast.Attribute) and isinstance(n.ctx, ast.Store) and isinstance(n.value, ast.Name) and n.value.id == "self"}
+            meths = {m.name for m in c.body if isinstance(m, ast.FunctionDef)}
+            for m in c.body:
+                if not isinstance(m, ast.FunctionDef) or m.name == "__init__" or m.decorator_list or not m.args.args or m.args.args[0].arg != "self":
+                    continue
+                if any(isinstance(x, (ast.FunctionDef, ast.Lambda, ast.Yield, ast.YieldFrom, ast.ListComp, ast.GeneratorExp, ast.SetComp, ast.DictComp)) for x in ast.walk(m) if x is not m):
+                    continue
+                uses = {}
+                for n in ast.walk(m):
+                    if isinstance(n, ast.Attribute) and isinstance(n.ctx, ast.Load) and isinstance(n.value, ast.Name) and n.value.id == "self" and n.attr in inits \
+                            and n.attr not in rebound and n.attr not in meths:
+                        uses.setdefault(n.attr, []).append(n)
+                names = {x.id for x in ast.walk(m) if isinstance(x, ast.Name)} | {a.arg for a in m.args.args}
+                pre = []
+                for attr, ns in sorted(uses.items()):
+                    if len(ns) < 2:
+                        continue
+                    loc = attr.strip("_") + "_h"
+                    if loc in names:
+                        continue
+                    pre.append(ast.Assign(targets=[ast.Name(id=loc, ctx=ast.Store())], value=ast.Attribute(value=ast.Name(id="self", ctx=ast.Load()), attr=attr, ctx=ast.Load())))
+
+                    class R(ast.NodeTransformer):
+                        def visit_Attribute(self, n, attr=attr, loc=loc):
+                            self.generic_visit(n)
+                            if isinstance(n.ctx, ast.Load) and isinstance(n.value, ast.Name) and n.value.id == "self" and n.attr == attr:
+                                return ast.copy_location(ast.Name(id=loc, ctx=ast.Load()), n)
+                            return n
+
+                    m.body = [R().visit(b) for b in m.body]
+                k = 1 if m.body and isinstance(m.body[0], ast.Expr) and isinstance(m.body[0].value, ast.Constant) and isinstance(m.body[0].value.value, str) else 0
+                m.body = m.body[:k] + pre + m.body[k:]
+
+
 def private_methods(trees):
     names = set()
     for t in trees.values():
@@ -321,6 +374,8 @@ def make(kind, dst):
     elif kind == "flipcmp":
         for p, t in trees.items():
             trees[p] = FlipCmp().visit(t)
+    elif kind == "hoist":
+        hoist_attrs(trees)
     elif kind == "methods":
         rename_attrs(trees, private_methods(trees), "_x")
     elif kind == "attrs":
@@ -335,7 +390,7 @@ def make(kind, dst):
 
 
 def main():
-    kinds = sys.argv[1:] or ["unparse", "locals", "invert", "splitand", "methods", "attrs", "flags", "whiletrue", "guard", "ternary", "augassign", "format", "percent", "continue", "elsereturn", "flipcmp"]
+    kinds = sys.argv[1:] or ["unparse", "locals", "invert", "splitand", "methods", "attrs", "flags", "whiletrue", "guard", "ternary", "augassign", "format", "percent", "continue", "elsereturn", "flipcmp", "hoist"]
     bad = 0
     for kind in kinds:
         tmp = tempfile.mkdtemp(prefix=f"pyrtma-mech-{kind}-")
